@@ -15,7 +15,9 @@ def random_data(rng: random.Random, n: int | None = None) -> bytes:
         return rng.randbytes(n)
     if k < 0.8:
         return bytes(rng.choice([0, 0, 0, 1, 2, 3, 4, 255]) for _ in range(n))
-    return bytes(rng.choice([0, 1, 2, 65, 66, 0x7F]) for _ in range(n))     # small counts, ASCII, valid UTF-16
+    if k < 0.93:
+        return bytes(rng.choice([0, 1, 2, 65, 66, 0x7F]) for _ in range(n))     # small counts, ASCII, valid UTF-16
+    return bytes(rng.choice([0x40, 0x3F, 0x80, 0xC0, 0x7F, 0xFF, 0, 1]) for _ in range(n))  # LEB128 group boundaries (-64, 63, continuation bytes), sign bits
 
 
 def gen_case(rng: random.Random, **opts) -> Case:
@@ -52,3 +54,55 @@ def replay_case(rep: dict) -> Case:
     return Case(rep["definition"], align=rep["load_kwargs"]["align"], compiled=rep["load_kwargs"]["compiled"],
                 endian=rep["cstruct_kwargs"]["endian"], pointer=rep["cstruct_kwargs"]["pointer"],
                 history=[tuple(h) for h in rep.get("history", [])])
+
+
+def default_sharing_problems() -> list[dict]:
+    """Deterministic histories on default-constructed instances: instances never share mutable members, also when the type was
+    instantiated before it was extended, and for forwarded members of anonymous nested structures."""
+    from dissect.cstruct import cstruct
+
+    probs = []
+    for compiled in (False, True):
+        # 1. instantiate a scalar-only structure, extend it with an array and a nested structure, then default-construct twice
+        cs = cstruct()
+        cs.load("struct in { uint8 x; uint16 y; }; struct main { uint8 a; uint8 b; };", compiled=compiled)
+        T = cs.main
+        T()
+        T(b"\x01\x02")
+        T.add_field("arr", cs.uint16[3])
+        T.add_field("n", cs.resolve("in"))
+        a, b = T(), T()
+        a.arr[1] = 0x1234
+        a.n.y = 9
+        c = T()
+        if list(b.arr) != [0, 0, 0] or b.n.y != 0 or list(c.arr) != [0, 0, 0] or c.n.y != 0 or c.dumps() != bytes(len(c.dumps())):
+            probs.append({"what": "instances constructed after add_field share their default array / nested structure", "compiled": compiled,
+                          "history": ["main()", "main(b'\\x01\\x02')", "add_field(arr, uint16[3])", "add_field(n, in)", "a = main(); b = main()", "a.arr[1] = 0x1234; a.n.y = 9", "c = main()"],
+                          "observed": repr((list(b.arr), b.n.y, list(c.arr), c.n.y)), "expected": "([0, 0, 0], 0, [0, 0, 0], 0)"})
+        # 2. forwarded members of an anonymous nested structure
+        cs = cstruct()
+        cs.load("struct main { uint8 a; struct { uint8 x; uint16 y[2]; }; uint8 t; };", compiled=compiled)
+        a = cs.main()
+        a.x = 127
+        a.y[1] = 5
+        b = cs.main()
+        p = cs.main(a=3)
+        if b.x != 0 or list(b.y) != [0, 0] or p.x != 0 or list(p.y) != [0, 0]:
+            probs.append({"what": "default of an anonymous nested structure is shared between instances", "compiled": compiled,
+                          "history": ["a = main()", "a.x = 127; a.y[1] = 5", "b = main(); p = main(a=3)"], "observed": repr((b.x, list(b.y), p.x, list(p.y))), "expected": "(0, [0, 0], 0, [0, 0])"})
+        # 3. a structure with an array, instantiated, extended by a batch, instantiated again
+        cs = cstruct()
+        cs.load("struct main { uint8 k; uint8 v[2]; };", compiled=compiled)
+        T = cs.main
+        x = T()
+        x.v[0] = 1
+        with T.start_update():
+            T.add_field("w", cs.uint8[2])
+        a, b = T(), T()
+        a.w[0] = 7
+        a.v[1] = 8
+        if list(b.w) != [0, 0] or list(b.v) != [0, 0] or list(T().w) != [0, 0]:
+            probs.append({"what": "instances constructed after a batch extension share their default arrays", "compiled": compiled,
+                          "history": ["x = main(); x.v[0] = 1", "start_update: add_field(w, uint8[2])", "a = main(); b = main()", "a.w[0] = 7; a.v[1] = 8"],
+                          "observed": repr((list(b.w), list(b.v))), "expected": "([0, 0], [0, 0])"})
+    return probs
